@@ -213,7 +213,7 @@ func buildPopulation(w *world, n int, ref []string, rng *rand.Rand, base int) *p
 	}
 	// distractors: staked for other chains only (both states); unstaked record listing the chain
 	// (never indexed); staked for the chain only AFTER the session started (reference state only)
-	ds, dpk := sortedAddrs(11, base, 4)
+	ds, dpk := sortedAddrs(11, base, 5)
 	for _, c := range []sdk.Context{sc, rc} {
 		v := staked(ds[0], dpk[ds[0].String()], []string{"0002", "0003"})
 		w.nk.SetValidator(c, v)
@@ -221,6 +221,26 @@ func buildPopulation(w *world, n int, ref []string, rng *rand.Rand, base int) *p
 		u := staked(ds[1], dpk[ds[1].String()], []string{sessChain})
 		u.Status = sdk.Unstaked
 		w.nk.SetValidator(c, u)
+	}
+	// a node that served the chain, left it BEFORE the session started and came back after it started -
+	// all through the real edit-stake path, so that the per-chain index is what the keeper maintains
+	for _, c := range []sdk.Context{sc, rc} {
+		back := staked(ds[3], dpk[ds[3].String()], []string{sessChain})
+		w.nk.SetValidator(c, back)
+		w.nk.SetStakedValidatorByChains(c, back)
+		away := back
+		away.Chains = []string{"0002"}
+		if err := w.nk.EditStakeValidator(c, back, away, back.StakedTokens, dpk[ds[3].String()]); err != nil {
+			hx.Fatal("edit-stake (away): %v", err)
+		}
+	}
+	{
+		cur, _ := w.nk.GetValidator(rc, ds[3])
+		again := cur
+		again.Chains = []string{sessChain, "0002"}
+		if err := w.nk.EditStakeValidator(rc, cur, again, cur.StakedTokens, dpk[ds[3].String()]); err != nil {
+			hx.Fatal("edit-stake (back): %v", err)
+		}
 	}
 	late := staked(ds[2], dpk[ds[2].String()], []string{sessChain})
 	w.nk.SetValidator(rc, late)
